@@ -1,22 +1,26 @@
 #!/usr/bin/env python3
 """Import the seeded changes a sub-agent left in /tmp/seed/<Cxx>_out into /verif/seeded/<Cxx>_m<i>/ and run the
-checks against each (all claimed checks unless a list is given).  usage: seedimport.py Cxx [Cyy ...] [--checks C01,C02]"""
+checks against each (all claimed checks unless a list is given).  usage: seedimport.py Cxx [Cyy ...] [--checks=C01,C02] [--root=/tmp/seed2] [--offset=2]   (round 2: m1/m2 become Cxx_m3/Cxx_m4)"""
 import json, os, shutil, subprocess, sys
 ROOT = os.path.dirname(os.path.dirname(os.path.abspath(__file__)))
 def main():
     args = [a for a in sys.argv[1:] if not a.startswith("--")]
     checks = None
+    root, offset = "/tmp/seed", 0
     for a in sys.argv[1:]:
         if a.startswith("--checks="): checks = a.split("=", 1)[1].split(",")
+        if a.startswith("--root="): root = a.split("=", 1)[1]
+        if a.startswith("--offset="): offset = int(a.split("=", 1)[1])
     for pid in args:
-        src = "/tmp/seed/%s_out" % pid
+        src = "%s/%s_out" % (root, pid)
         for i in (1, 2, 3):
             if not os.path.exists(os.path.join(src, "m%d.diff" % i)): continue
-            name = "%s_m%d" % (pid, i)
+            name = "%s_m%d" % (pid, i + offset)
             dst = os.path.join(ROOT, "seeded", name)
             os.makedirs(dst, exist_ok=True)
             shutil.copy(os.path.join(src, "m%d.diff" % i), os.path.join(dst, "patch.diff"))
-            for f, t in (("m%d_demo.rs" % i, "demo.rs"), ("m%d_demo_pristine.txt" % i, "demo_pristine.txt"), ("m%d_demo_mutated.txt" % i, "demo_mutated.txt")):
+            for f, t in (("m%d_demo.rs" % i, "demo.rs"), ("m%d_demo_pristine.txt" % i, "demo_pristine.txt"), ("m%d_demo_mutated.txt" % i, "demo_mutated.txt"),
+                         ("m%d_demo_pristine.log" % i, "demo_pristine.txt"), ("m%d_demo_mutated.log" % i, "demo_mutated.txt")):
                 if os.path.exists(os.path.join(src, f)): shutil.copy(os.path.join(src, f), os.path.join(dst, t))
             try: meta = json.load(open(os.path.join(src, "m%d_meta.json" % i)))
             except Exception: meta = {"property": pid}
